@@ -24,7 +24,7 @@ def run(chk, tier):
     r = chk.rng
     ops = []
     for e in reg:
-        hot = e["name"].startswith(("Aes", "Kuz", "Serpent"))
+        hot = e["name"].startswith(("Aes", "Kuz", "Serpent", "Armv8", "Neon"))
         n = (40 if hot else 4) if quick else (1500 if hot else 100)
         for i in range(n):
             k = key_for(r, e, i)
@@ -39,8 +39,26 @@ def run(chk, tier):
     for op in ops:
         t = op.split(" ")
         chk.case((t[1], t[-2], t[-1][:64]), nontrivial=set(t[-2]) != {"0"}, sample=op[:200] if r.below(500) == 0 else None)
-    chk.run_family(QUICK if quick else THOROUGH, ops, cross=True)
+    outs, _ = chk.run_family(QUICK if quick else THOROUGH, ops, cross=True)
+    # shadow backends against the native ones, type by type, on the real builds: the same (key, data) line issued for
+    # `Aes128` (AES-NI / fixslice) and `Armv8Aes128` (ARMv8 source over software intrinsics), `Kuznyechik` and `NeonKuznyechik`
+    idx = {op: i for i, op in enumerate(ops)}
+    xops = []
+    for op in ops:
+        t = op.split(" ")
+        if t[1].startswith(("Armv8", "Neon")):
+            xops.append(op)
+            xops.append(" ".join([t[0], t[1].replace("Armv8", "").replace("Neon", "")] + t[2:]))
+    from ..common import run_harness
+    for cn in (["default", "cpuoff"] if quick else ["default", "cpuoff", "forcesoft", "kuzsoft", "kuzcompact"]):
+        res = run_harness(CONFIGS[cn], xops)
+        for j in range(0, len(xops), 2):
+            chk.case(("shadow-vs-native", xops[j][:80]), nontrivial=True)
+            if res[j] != res[j + 1]:
+                chk.violation(f"{xops[j][:150]} [shadow≠native {cn}]", {"kind": "config-divergence", "configs": ["shadow", cn], "ops": [xops[j], xops[j + 1]],
+                                                                        "shadow": res[j], "native": res[j + 1]})
     from . import conf
     conf.kuz_backend_corr(chk, 40 if quick else 1500)
-    chk.assumptions.append("ARMv8 AES, NEON Kuznyechik and fixslice32 are not buildable natively on this x86-64 host; they are "
-                           "outside this run (DESIGN §4.4)")
+    chk.assumptions.append("ARMv8 AES and NEON Kuznyechik: the repository's source files are compiled into the harness over software "
+                           "intrinsics (Armv8Aes*, NeonKuznyechik* registry types) and compared with the native backends and their Lean "
+                           "models; the aarch64 instruction semantics are transcribed from the Arm ARM, not checked on hardware (DESIGN §4.4)")
